@@ -135,7 +135,7 @@ func (c *Ctx) ownedBy(field *types.Var, owner string, allowedRoots map[string]st
 		}
 	}
 	if n < minAcc {
-		c.undecided(fmt.Sprintf("field %s ownership | access floor", field.Name()), "", fmt.Sprintf("found %d accesses, need %d", n, minAcc))
+		c.undecided(fmt.Sprintf("field %s ownership | access floor", c.on(field)), "", fmt.Sprintf("found %d accesses, need %d", n, minAcc))
 	}
 }
 
@@ -176,7 +176,7 @@ func (c *Ctx) atomicOnly(fields []*types.Var, exempt map[string]string, minAcc i
 		}
 		sort.Strings(bad)
 		sort.Strings(sites)
-		construct := "atomic-only field " + fieldOwnerName(f) + "." + f.Name()
+		construct := "atomic-only field " + fieldOwnerName(f) + "." + c.on(f)
 		if len(bad) > 0 {
 			c.fail(construct, "", join(bad), sites...)
 		} else {
